@@ -60,14 +60,12 @@ Definition relative_to (root n : bytes) : option bytes :=
   let pre := root ++ [47] in
   if prefix_b pre n then Some (skipn (List.length pre) n) else None.
 
-(** the chmod argument: os.Chmod(UnixPermsToModePerms(uint32(mode))) as unix permission bits; 0 = no chmod *)
-Definition chmod_bits (mode : Z) : Z :=
-  let m := mode mod 2 ^ 32 in
-  let fm := Z.lor (Z.lor (Z.land m 511) (Z.land m 12582912)) (Z.land m 1048576) in   (* 0x1FF, 0xC00000, 0x100000 *)
-  if fm =? 0 then 0 else
-  Z.land fm 511 + (if Z.land fm 8388608 =? 0 then 0 else 2048)      (* ModeSetuid -> 04000 *)
-               + (if Z.land fm 4194304 =? 0 then 0 else 1024)      (* ModeSetgid -> 02000 *)
-               + (if Z.land fm 1048576 =? 0 then 0 else 512).      (* ModeSticky -> 01000 *)
+(** the chmod argument as unix permission bits, 0 = no chmod at all:
+    UnixPermsToModePerms(uint32(mode)) = (m & 0x1FF) | (m & 0xC00) << 12 | (m & 0x200) << 11
+    (in Go [&] and [<<] have the same precedence and associate to the left), i.e. the
+    permission bits plus ModeSetuid / ModeSetgid / ModeSticky, which os.Chmod's syscallMode
+    turns back into 04000 / 02000 / 01000: all in all the low twelve bits of the header mode *)
+Definition chmod_bits (mode : Z) : Z := Z.land (mode mod 2 ^ 32) 4095.
 
 (** files.UpdateMetaUnix(path, mode, mtime): (file system reached, failed?) — the time may have been set
     before the mode change fails *)
